@@ -344,6 +344,34 @@ Definition ret_hist (rows : list (list gv)) (calls : list Z) : list (list jobs) 
    gives back a value of that kind, and a parameter of that kind receives it unchanged *)
 Definition named_seen (g : gv) : jobs * gv * cres := (ret_one g, g, CV g).
 
+(* a JavaScript function passed where Go expects a func type (convertCallParameter,
+   reflect.Func case): Go calls it; the callback sees the Go arguments; its
+   result is converted against the declared result type by the same checked
+   conversion -- undefined is not an int -- and a failure, or an exception thrown
+   by the callback, surfaces at the bridged call that triggered it.  Func types
+   with more than one result are refused when the callback is converted. *)
+Inductive cbty := RNone | ROne (t : gty) | RErr | RTwo.
+Inductive cbret := CbRet (v : jsv) | CbThrow (cls : Z).
+
+Definition cb_args (rt : cbty) (nparams : Z) : list Z :=
+  match rt with RTwo => [] | _ => map (fun i => 11 + Z.of_nat i) (seq 0 (Z.to_nat nparams)) end.
+
+Definition cb_call (idn ids : bool) (rt : cbty) (r : cbret) : cres :=
+  match rt with
+  | RTwo => CE 6
+  | _ =>
+      match r with
+      | CbThrow c => CE c
+      | CbRet v =>
+          match rt with
+          | RNone => CV GVNil
+          | ROne t => conv idn ids 12 v t
+          | RErr => match v with JUndef | JNull => CV GVNil | JFun => CDecl | _ => CE 6 end
+          | RTwo => CE 6
+          end
+      end
+  end.
+
 (* ---- re-entrancy: script code that runs while the arguments of a call are
    being converted (toString of an object given for a string parameter, a
    getter read while a map / struct / slice parameter is built) may call
